@@ -326,17 +326,17 @@ theorem wfLocus_of_J {l : Locus} (h : wfLocusJ l = true) (hname : l.name ≠ [])
   obtain ⟨⟨⟨⟨hn, h2⟩, h3⟩, h4⟩, h5⟩ := h
   exact ⟨⟨⟨⟨hn.resolve_left hname, h2⟩, h3⟩, h4⟩, h5⟩
 
-theorem otherKeys_of_J {m : List (Str × Str)} (h : m.all (wfOtherJ 12) = true) :
+theorem otherKeys_of_J {m : List (Str × Str)} (h : m.all (wfOtherJ 11) = true) :
     ∀ kv ∈ m, isWord kv.1 = true ∧ kv.1.length ≤ 12 ∧ reservedKeys.contains kv.1 = false := by
   intro kv hkv
   have := List.all_eq_true.mp h kv hkv
   simp only [wfOtherJ, Bool.and_eq_true, Bool.not_eq_true', decide_eq_true_eq] at this
-  exact ⟨this.1.1.1.1, this.1.1.2, this.1.2⟩
+  exact ⟨this.1.1.1.1, by have := this.1.1.2; omega, this.1.2⟩
 
 /-- the whole judge's layout domain with a locus name: the domain of the EXACT theorem -/
 theorem facts0_of_wfLayoutJ (x : Sequence) (h : wfLayoutJ x = true) (hname : x.metadata.locus.name ≠ []) : Facts0 x := by
   simp only [wfLayoutJ, Bool.and_eq_true, bne_iff_ne, ne_eq, decide_eq_true_eq] at h
-  obtain ⟨⟨⟨⟨⟨⟨⟨⟨⟨⟨⟨⟨⟨hlocus, _⟩, _⟩, _⟩, _⟩, _⟩, _⟩, hrefs⟩, _⟩, hother⟩, hfeat⟩, hne⟩, hlet⟩, hlen⟩ := h
+  obtain ⟨⟨⟨⟨⟨⟨⟨⟨⟨⟨⟨⟨⟨⟨hlocus, _⟩, _⟩, _⟩, _⟩, _⟩, _⟩, hrefs⟩, _⟩, hother⟩, hfeat⟩, hne⟩, hlet⟩, hlen⟩, _⟩ := h
   refine
     { locus := wfLocus_of_J hlocus hname, refs := ?_, otherKeys := otherKeys_of_J hother, feats := hfeat,
       seqNe := hne, seqLetters := hlet, seqLen := by simpa using hlen }
@@ -367,7 +367,7 @@ theorem facts_of_wfLayoutG (x : Sequence) (h : wfLayoutG x = true) : Facts x := 
   obtain ⟨⟨hj, hname⟩, hcls⟩ := h
   have f0 := facts0_of_wfLayoutJ x hj hname
   simp only [wfLayoutJ, Bool.and_eq_true, bne_iff_ne, ne_eq, decide_eq_true_eq] at hj
-  obtain ⟨⟨⟨⟨⟨⟨⟨⟨⟨⟨⟨⟨⟨_, jd⟩, ja⟩, jv⟩, jk⟩, js⟩, jo⟩, hrefs⟩, _⟩, hother⟩, _⟩, _⟩, _⟩, _⟩ := hj
+  obtain ⟨⟨⟨⟨⟨⟨⟨⟨⟨⟨⟨⟨⟨⟨_, jd⟩, ja⟩, jv⟩, jk⟩, js⟩, jo⟩, hrefs⟩, _⟩, hother⟩, _⟩, _⟩, _⟩, _⟩, _⟩ := hj
   have hnm : (x.metadata.locus.name != []) = true := by simpa using hname
   simp only [clsBlankRun, hnm, Bool.true_and, Bool.or_eq_false_iff] at hcls
   obtain ⟨⟨⟨⟨⟨⟨⟨hd, ha⟩, hv⟩, hk⟩, hs⟩, ho⟩, hoth⟩, hrf⟩ := hcls
@@ -514,7 +514,7 @@ theorem lookupD_self : ∀ (m : List (Str × Str)), nodupKeys m = true → ∀ k
       simp only [List.lookup, hne]
       exact ih
 
-theorem otherSize_lossy (m : List (Str × Str)) (hw : m.all (wfOtherJ 12) = true) (hn : nodupKeys m = true) :
+theorem otherSize_lossy (m : List (Str × Str)) (hw : m.all (wfOtherJ 11) = true) (hn : nodupKeys m = true) :
     otherSize (m.map fun kv => (kv.1, readBack kv.2)) ≤ otherSize m
       ∧ ((m.any fun kv => losesBlanks kv.2) = true → otherSize (m.map fun kv => (kv.1, readBack kv.2)) < otherSize m) := by
   have hj : ∀ k, textJ (lookupD m k) = true := fun k =>
@@ -544,7 +544,7 @@ theorem recSize_expectedBack_lt (x : Sequence) (hj : wfLayoutJ x = true) (hc : c
   simp only [clsBlankRun, Bool.and_eq_true, bne_iff_ne, ne_eq] at hc
   obtain ⟨hname, hc⟩ := hc
   simp only [wfLayoutJ, Bool.and_eq_true, bne_iff_ne, ne_eq, decide_eq_true_eq] at hj
-  obtain ⟨⟨⟨⟨⟨⟨⟨⟨⟨⟨⟨⟨⟨_, jd⟩, ja⟩, jv⟩, jk⟩, js⟩, jo⟩, hrefs⟩, hnd⟩, hother⟩, _⟩, _⟩, _⟩, _⟩ := hj
+  obtain ⟨⟨⟨⟨⟨⟨⟨⟨⟨⟨⟨⟨⟨⟨_, jd⟩, ja⟩, jv⟩, jk⟩, js⟩, jo⟩, hrefs⟩, hnd⟩, hother⟩, _⟩, _⟩, _⟩, _⟩, _⟩ := hj
   rw [recSize_abs, recSize_abs]
   show (readBack x.metadata.definition).length + (readBack x.metadata.accession).length
       + (readBack x.metadata.version).length + (readBack x.metadata.keywords).length
@@ -680,7 +680,7 @@ theorem cls_hasBlankRun (x : Sequence) (hj : wfLayoutJ x = true) (hc : clsBlankR
   simp only [clsBlankRun, Bool.and_eq_true, bne_iff_ne, ne_eq] at hc
   obtain ⟨_, hc⟩ := hc
   simp only [wfLayoutJ, Bool.and_eq_true, bne_iff_ne, ne_eq, decide_eq_true_eq] at hj
-  obtain ⟨⟨⟨⟨⟨⟨⟨⟨⟨⟨⟨⟨⟨_, jd⟩, ja⟩, jv⟩, jk⟩, js⟩, jo⟩, hrefs⟩, _⟩, hother⟩, _⟩, _⟩, _⟩, _⟩ := hj
+  obtain ⟨⟨⟨⟨⟨⟨⟨⟨⟨⟨⟨⟨⟨⟨_, jd⟩, ja⟩, jv⟩, jk⟩, js⟩, jo⟩, hrefs⟩, _⟩, hother⟩, _⟩, _⟩, _⟩, _⟩, _⟩ := hj
   simp only [Bool.or_eq_true] at hc
   rcases hc with ((((((hl | hl) | hl) | hl) | hl) | hl) | hl) | hl
   · exact ⟨_, by simp [metaTexts], hasBlankRun_of_loses jd hl⟩
